@@ -176,7 +176,9 @@ class Ctx:
         # diagnostics: paths and colours normalised, order irrelevant ("the *set* of diagnostics")
         # (the spelling of the entry path is an input and is echoed by some messages)
         src_dir_spelled = os.path.dirname(spell(src, amb["abs_entry"])) or "."
-        diag = sorted(set(l.strip() for l in ANSI.sub("", r.stderr).replace(src_dir_spelled + "/", "<src>/").replace(c["dir"], "<dir>").splitlines() if l.strip()))
+        # (the OS thread id std prints in panic messages is obtained by a raw syscall the shim cannot reach: normalised)
+        stderr_text = re.sub(r"thread '([^']*)' \(\d+\)", r"thread '\1'", r.stderr)
+        diag = sorted(set(l.strip() for l in ANSI.sub("", stderr_text).replace(src_dir_spelled + "/", "<src>/").replace(c["dir"], "<dir>").splitlines() if l.strip()))
         with self.lock:
             self.runs += 1
             try:
@@ -448,6 +450,7 @@ def check(tier, seed):
         "runs_per_hour": int(ctx.runs / max(wall, 1e-9) * 3600),
         "fault_kinds_fired": {"ambient_entropy_draws": ctx.runs, "stale_output_dir": sum(1 for k in ctx.run_cache if json.loads(k[3])["stale"]),
                               "relative_path_spelling": sum(1 for k in ctx.run_cache if not json.loads(k[3])["abs_entry"]), "cwd_elsewhere": sum(1 for k in ctx.run_cache if json.loads(k[3])["cwd"])},
+        "not_controlled": ["OS thread id (raw gettid syscall; only visible in panic messages, normalised away)"],
         "seam_reach": {"calls_seen_by_shim": ctx.seam, "max_distinct_listing_orders_per_corpus_backend": orders, "aslr_disabled": bool(ctx.aslr),
                        "note": "a seam with 0 calls is a source the tool does not consult on this tree (clock, pid, hostname); it stays simulated so that a change which starts consulting it is caught"},
         "simulated_time_span_s": [1, 4102445800],
